@@ -34,6 +34,7 @@ pub fn prop() -> HistProp {
         thorough: 30000,
         mk: |_, _, o| Box::new(C06 { rec: (o.state.total_bond_bsei_amount.u128(), o.state.total_bond_stsei_amount.u128()), nontrivial: false }),
         extra: Some((4, |_| release_scenario_strategy(cfg_strategy()))),
+        many_batches: 1,
     }
 }
 
